@@ -258,13 +258,23 @@ def run(ctx):
     infixscan.left_right_split(ctx, "R4")
     # make_goal's built-in names = dispatch table names
     names = set()
-    for p in Walker(MG, max_visits=2, max_paths=300000).paths():
+    for p in Walker(MG, max_visits=2, max_paths=300000, inline=inline.helpers(prog)).paths():
         if p.end == "return" and p.ret[0] == "agg" and p.ret[2] == "BuiltInGoal":
             for e in p.events:
                 if e["k"] == "branch" and e["value"] is True and e["cond"][0] == "call" and e["cond"][1].endswith("::eq"):
                     for a in e["cond"][2]:
                         if a[0] == "const" and a[2].startswith('"'):
                             names.add(a[2].strip('"'))
+                elif e["k"] == "branch" and e["value"] is True and e["cond"][0] == "call" and \
+                        (e["cond"][1].endswith("::contains") or e["cond"][1].endswith("::any")):
+                    # membership in a named table of functor names (`TABLE.contains(&functor)`)
+                    def tbl(t):
+                        if t[0] == "const" and isinstance(t[2], str) and t[2] in prog.const_strs:
+                            names.update(prog.const_strs[t[2]])
+                        return False
+                    for a in e["cond"][2]:
+                        mentions(a, tbl)
+                        tbl(strip(a)) if isinstance(a, tuple) else None
     # every name make_goal turns into a built-in goal has a cell in the dispatcher (else the goal panics when run), and
     # every comparison functor is among them (else `less_than(a, b)` would be looked up as a user predicate); a cell
     # the argument-taking constructor does not know (an argument-less built-in) is no concern of this property
